@@ -11,6 +11,16 @@ NOTE = ("Trusted base: the frozen effect / identity tables in kdverif (one reaso
         "the value-level behaviour of the property (see DESIGN.md section 4, 'N' lists).")
 
 CLAIMS = {
+    "C17": ("dominance / guard rules on the mask-writing paths, polynomial block bounds, dependence of block sizes on the step-seeded generator",
+            "Decides: KDDinoMaskCollator generates masks only for masks[i], i < int(batch_size * num_views * mask_prob), out of "
+            "batch_size * num_views empty masks; _generate_mask passes total - done and adds exactly the returned count; every "
+            "write in _mask_block is dominated by 'unmasked patches in block <= remaining budget' and the count grows exactly "
+            "where a patch is newly set; all block offsets (both collators) satisfy lo >= 0 and hi - 1 + extent <= grid extent "
+            "of their axis, I-JEPA block sizes are clamped to extent - 1; the I-JEPA size generator is "
+            "torch.Generator().manual_seed(self.step()), _sample_block_size draws only from it, step() increments and reads "
+            "the counter under its lock; encoder masks are constrained by the complements of the same sample's predictor "
+            "masks; every mask updates the running minimum and all are cut to it before collation; both collate methods "
+            "return the batch unmodified. Ratio limits, disjointness, sortedness as tensor facts are not decided."),
     "C20": ("crash-closure typestate: abstract interpretation of the copy functions over a finite persistent-state domain, closed under 'die after / inside any effect, run again'",
             "Decides for copy_folder_from_global_to_local and its image-folder twin, over the closure of persistent states "
             "(folder present, start marker, end marker, data none/partial/complete, origin user/auto) reachable through any "
